@@ -42,6 +42,9 @@ def expectedSkeleton : List (String × List String) := [
   ("contract.UseGas", ["if $c.Gas < gas", "return false", "$c.Gas -= gas", "return true"]),
   ("contract.isCode", ["if $c.analysis != nil", "return $c.analysis.codeSegment(udest)", "if $c.CodeHash != (common.Hash{})", "analysis, exist := $c.jumpdests[$c.CodeHash]", "if !exist", "analysis = codeBitmap($c.Code)", "$c.jumpdests[$c.CodeHash] = analysis", "$c.analysis = analysis", "return analysis.codeSegment(udest)", "if $c.analysis == nil", "$c.analysis = codeBitmap($c.Code)", "return $c.analysis.codeSegment(udest)"]),
   ("contract.validJumpdest", ["udest, overflow := dest.Uint64WithOverflow()", "if overflow || udest >= uint64(len($c.Code))", "return false", "if OpCode($c.Code[udest]) != JUMPDEST", "return false", "return $c.isCode(udest)"]),
+  ("executor.Execute", ["gasLimit := contractRawData.GasLimit", "if common.IsProposal015()", "if contractRawData.GasLimit < intrinsicGas", "vmCtx.GasLimit = defaultGasLimit", "gasLimitTemp := gasLimit", "if common.IsProposal015()", "if common.IsProposal017() && gasLimit > p017defaultGasLimit", "gasLimit = p017defaultGasLimit", "if common.IsProposal026()", "gasLimit = gasLimitTemp", "if gasLimit > p026defaultGasLimit", "gasLimit = p026defaultGasLimit", "vmCtx.GasLimit = gasLimit - intrinsicGas", "result, contractAddress, leftOverGas, logs, err = vmInstance.Create(caller, input, vmCtx.GasLimit, transferValue)", "if common.IsProposal007()", "result, leftOverGas, logs, err = vmInstance.Call(caller, contractAddress, input, vmCtx.GasLimit, transferValue)", "if common.IsProposal015()", "gasUsed := gasLimit - leftOverGas"]),
+  ("executor.IntrinsicGas", ["if contractCreation", "gas = vm.TxGasContractCreation", "gas = vm.TxGas", "if len(data) > 0", "if byt != 0", "if (math.MaxUint64-gas)/nonZeroGas < nz", "return 0, vm.ErrGasUintOverflow", "gas += nz * nonZeroGas", "if (math.MaxUint64-gas)/vm.TxDataZeroGas < z", "return 0, vm.ErrGasUintOverflow", "gas += z * vm.TxDataZeroGas", "if common.IsProposal026()", "return gas * common.GasMagnification, nil", "return gas, nil"]),
+  ("executor.gasConstants", ["defaultGasLimit=6000000", "p017defaultGasLimit=30000000", "p026defaultGasLimit=900000000"]),
   ("flags.Call", []),
   ("flags.NewEVMInterpreter", ["Proposal014Block", "Proposal022Block", "Proposal026Block"]),
   ("flags.RunPrecompiledContract", []),
@@ -108,6 +111,9 @@ def expectedSkeleton : List (String × List String) := [
     of `validJumpdest` (`udest >= len(code)` refuses the destination *equal* to the code length),
     `isCode` (cache key `CodeHash`), `GetByte`, `UseGas`, `AsDelegate`, and the loop structure of
     the bitmap construction.
+    `executor.*`: the gas-limit constants of the contract executor (6·10^6 / 3·10^7 / 9·10^8), every
+    condition and assignment of `Execute` that touches the gas limit, and the whole of `IntrinsicGas`
+    (`Model.intrinsicGas`, `Model.executorVmGas`).
     `pkgstate.writes` / `pkgstate.pools`: the only package-level variables of `src/vm` any function
     assigns are the logger (`InitVM`) and the precompile address list (`init`); the only shared
     mutable objects on the execution path are the two `sync.Pool`s of stacks (a new package-level
